@@ -19,9 +19,10 @@ FileNames == {[kind |-> "none", text |-> "", v |-> Unset],
               [kind |-> "literal", text |-> "filename", v |-> V("filename")],
               [kind |-> "literal", text |-> "My.App", v |-> V("My.App")],
               [kind |-> "literal", text |-> "___", v |-> V("___")],
+              [kind |-> "literal", text |-> ".-App", v |-> V(".-App")],
               [kind |-> "var", text |-> "${NV}", v |-> V("fromvar")],
               [kind |-> "var", text |-> "x${UNSETV}", v |-> V("x")]}
-Dirs == {"proj", "My.Proj", "_weird", "---", "W1-b"}
+Dirs == {"proj", "My.Proj", "_weird", "---", "W1-b", ".-proj", "@_scope", "a.-b"}
 Seqs(S, lo, hi) == UNION {[1..k -> S] : k \in lo..hi}
 
 \* outside the enforced domain (see DESIGN 9.1): a later file whose name normalises to empty while an earlier one sets a name
